@@ -104,6 +104,15 @@ func descN(v ssa.Value, depth int, seen map[ssa.Value]bool) string {
 				}
 			}
 			if fa, ok := v.X.(*ssa.FieldAddr); ok {
+				// a field read back from a small key literal built in this function (requestID{session: s, request: r}.request)
+				// is the value it was built with
+				if a, ok := fa.X.(*ssa.Alloc); ok && (a.Comment == "complit" || a.Comment == "new" || a.Comment == "") && !a.Heap {
+					if st, ok := deref(a.Type()).Underlying().(*types.Struct); ok && st.NumFields() <= 3 && unexportedNamed(deref(a.Type())) {
+						if vals := LiteralFields(a)[fieldName(fa.X.Type(), fa.Field)]; len(vals) == 1 && onlyFieldUses(a) {
+							return d(vals[0])
+						}
+					}
+				}
 				if a, ok := fa.X.(*ssa.Alloc); ok && a.Comment != "complit" && a.Comment != "new" {
 					if sv := SingleStore(a, v); sv != nil {
 						return d(sv) + "." + fieldName(fa.X.Type(), fa.Field)
@@ -398,6 +407,45 @@ func LiteralFields(a ssa.Value) map[string][]ssa.Value {
 		}
 	}
 	return out
+}
+
+// onlyFieldUses: the allocation is used only through field addresses (stored to once each, see LiteralFields) and
+// whole-value loads: nothing else can write its fields.
+func onlyFieldUses(a *ssa.Alloc) bool {
+	refs := a.Referrers()
+	if refs == nil {
+		return false
+	}
+	for _, r := range *refs {
+		switch x := r.(type) {
+		case *ssa.FieldAddr:
+			if fr := x.Referrers(); fr != nil {
+				for _, u := range *fr {
+					switch y := u.(type) {
+					case *ssa.Store:
+						if y.Addr != x {
+							return false
+						}
+					case *ssa.UnOp:
+						if y.Op != token.MUL {
+							return false
+						}
+					case *ssa.DebugRef:
+					default:
+						return false
+					}
+				}
+			}
+		case *ssa.UnOp:
+			if x.Op != token.MUL {
+				return false
+			}
+		case *ssa.DebugRef:
+		default:
+			return false
+		}
+	}
+	return true
 }
 
 // StripIface removes MakeInterface / ChangeInterface / ChangeType wrappers.
